@@ -90,6 +90,15 @@ def run_case(case, ctx):
         for i in ("LicenseRef-special", "MIT"):
             if i not in have:
                 recipe["licenses"].append({"name": i + ".txt", "id": i})
+    if k % 6 == 0:
+        # a LicenseRef- that lint attributes to a file although nobody provides its text (a non-compliant tree is still described)
+        recipe["files"].append({"path": "refmissing.txt", "kind": "text", "style": "python", "multi": False,
+                                "sources": [{"carrier": "header", "copyrights": ["2022 Ref Missing"],
+                                             "exprs": [("and", [("id", "LicenseRef-not-provided"), ("id", "MIT")])], "toml_dir": ""}]})
+        recipe["files"].append({"path": "refonly.txt", "kind": "text", "style": "c", "multi": False,
+                                "sources": [{"carrier": "dotlicense", "copyrights": ["2022 Ref Only"], "exprs": [("id", "LicenseRef-nowhere.at-all")], "toml_dir": ""}]})
+        if "MIT" not in {x["id"] for x in recipe["licenses"]}:
+            recipe["licenses"].append({"name": "MIT.txt", "id": "MIT"})
     if k % 2 == 1 and recipe["global_mode"] != "dep5":
         # same identifiers, different structure; and byte-identical files with one base name in different directories:
         # anything memoised on identifiers, base name or content shows up here
